@@ -191,7 +191,7 @@ def run(ctx):
             continue
         seen.add(key)
         verdict.add(key, w, {"kind": "failing-input", "tcp": True, "case": c, "observed": r})
-    if not fails and not proof["build_ok"]:
+    if not verdict.findings_with_input() and not proof["build_ok"]:
         verdict.add("proof-broken", "proof obligation of C03 no longer checks (%s) and no failing scenario was found among %d"
                     % (", ".join(proof.get("broken", [])), len(cases)),
                     {"kind": "proof-broken", "broken": proof.get("broken"), "build_tail": proof.get("build_tail"),
